@@ -500,28 +500,25 @@ func checkC07(p *Program, r *Report) {
 	r.Rule("C07.gate", "E4+E3", "incompatible versions are rejected before anything is parsed", 3)
 	// version source
 	srcOK := ""
-	instrsOf(un, func(_ *ssa.BasicBlock, in ssa.Instruction) {
-		c, ok := in.(*ssa.Call)
-		if !ok || !c.Call.IsInvoke() || c.Call.Method.Name() != "GetVersion" {
-			return
+	if len(un.Params) > 1 {
+		if ok, pos := versionSourceOK(un, un.Params[1]); ok {
+			srcOK = p.Pos(pos)
 		}
-		ex, ok := c.Call.Value.(*ssa.Extract)
-		if !ok {
-			return
+		// or in a helper that is handed the argument buffer
+		for _, c := range callsIn(un) {
+			g := calleeOf(c)
+			if g == nil || !trieScope(g) || len(g.Blocks) == 0 {
+				continue
+			}
+			for ai, a := range c.Common().Args {
+				if a == ssa.Value(un.Params[1]) && ai < len(g.Params) {
+					if ok, pos := versionSourceOK(g, g.Params[ai]); ok {
+						srcOK = p.Pos(pos)
+					}
+				}
+			}
 		}
-		rc, ok := ex.Tuple.(*ssa.Call)
-		if !ok || !calleeIs(rc, idReadHeader) {
-			return
-		}
-		// reader built over the argument buffer
-		arg := rc.Call.Args[0]
-		if mi, ok := arg.(*ssa.MakeInterface); ok {
-			arg = mi.X
-		}
-		if nr, ok := arg.(*ssa.Call); ok && calleeIs(nr, "bytes.NewReader") && len(un.Params) > 1 && nr.Call.Args[0] == un.Params[1] {
-			srcOK = p.Pos(c.Pos())
-		}
-	})
+	}
 	r.Check(srcOK != "", "version under test comes from the header of the argument buffer", p.Pos(un.Pos()), "GetVersion() of pbcmpl.ReadHeader(bytes.NewReader(buf)) at "+srcOK,
 		"cannot establish that the version tested is read from the header of Unmarshal's argument")
 	var bad []string
